@@ -82,6 +82,15 @@ def isBlockedBy (p : Parent) (cur : Obj) : Bool :=
 
 def refOfX (j : Json) : Ref := ⟨str j "key", bool j "kinded"⟩
 
+/-- one third-party write of the scenario: `{"i","act":"del"|"put","key","body","owners"}` -/
+def actOf (j : Json) : Act :=
+  if str j "act" == "put" then .put ⟨str j "key", 0, (arr j "owners").map refOf, nat j "body"⟩
+  else .del (str j "key")
+
+/-- the scenario's interference: the listed writes, in order, right before the real write of object `i` -/
+def interfOf (tp : List Json) : Interf :=
+  { pre := fun i => (tp.filter fun j => nat j "i" == i).map actOf }
+
 /-- mirror of `uniqueResourceIdentifier` (GVK string + "/" + name) used by the
 reconciler to sort references, descending -/
 def refId (r : Ref) : String :=
@@ -120,6 +129,7 @@ def runStep (a : Acc) (st : Json) : Acc :=
   let ranL := (arr st "ran").map fun j => j.getBool?.toOption.getD false
   let ran : Nat → Bool := fun i => ranL.getD i false
   let refsBefore := a.sys.refs p.uid
+  let tp := interfOf (arr st "tp")
   let (sys1, result, refs) : Sys × String × List Json :=
     if op == "release" then
       let refs := (arr st "refs").map refOfX
@@ -127,10 +137,10 @@ def runStep (a : Acc) (st : Json) : Acc :=
       (⟨s1, a.sys.refs⟩, resStr r, [])
     else if op == "reconcile" then
       let env : Env := ⟨rejects, fault, nats st "vorder", nats st "eorder", List.range refsBefore.length, ran, sortRefsDesc⟩
-      let (sys1, r) := reconcileRev ⟨s0, a.sys.refs⟩ ⟨p, control, objs⟩ env
+      let (sys1, r) := reconcileRevI ⟨s0, a.sys.refs⟩ ⟨p, control, objs⟩ env tp
       (sys1, resStr r, (sys1.refs p.uid).map refObsJson)
     else
-      let (s1, r) := establish rejects fault p control s0 objs (nats st "vorder") (nats st "eorder")
+      let (s1, r) := establishI rejects fault tp p control s0 objs (nats st "vorder") (nats st "eorder")
       match r with
       | .ok ks => (⟨s1, a.sys.refs⟩, "ok", (ks.mergeSort (fun x y => nameOfKey x.key < nameOfKey y.key ||
             (nameOfKey x.key == nameOfKey y.key && (!x.kinded || y.kinded)))).map refObsJson)
@@ -156,8 +166,10 @@ def runStep (a : Acc) (st : Json) : Acc :=
           rejB.contains (if control then d.body else cur.body)
       | none => control && (rejK.contains d.key || rejB.contains d.body)
   let good := !blocked || (s1.objs == s0.objs && s1.log.isEmpty && result != "ok")
-  { sys := sys1, outs := a.outs ++ [out], ok := a.ok && good,
-    why := if good then a.why else "C16:partial-establish" }
+  -- model-side monitor: an inactive revision issues no create, whoever interferes
+  let good2 := !(establishing && !control) || s1.log.all fun e => e.verb != .create
+  { sys := sys1, outs := a.outs ++ [out], ok := a.ok && good && good2,
+    why := if !good then "C16:partial-establish" else if !good2 then "C16:inactive-created" else a.why }
 
 def handler : Handler := fun scn =>
   let objs := (arr scn "store").zipIdx.map fun (j, i) =>
